@@ -5,12 +5,14 @@
 import YangVerif.Drv.C17
 import YangVerif.Drv.C10
 import YangVerif.Drv.C05
+import YangVerif.Drv.C11
 
 def dispatch (line : String) : String :=
   match (line.trimAscii.toString.splitOn " ").filter (· ≠ "") with
   | "c17" :: rest => YangVerif.Drv.C17.handle rest
   | "c10" :: rest => YangVerif.Drv.C10.handle rest
   | "c05" :: rest => YangVerif.Drv.C05.handle rest
+  | "c11" :: rest => YangVerif.Drv.C11.handle rest
   | _ => "bad-op"
 
 partial def loop (h : IO.FS.Stream) (out : IO.FS.Stream) : IO Unit := do
